@@ -222,7 +222,7 @@ func (f *FuncVC) intBinop(st *State, op token.Token, x, y *Val, ty types.Type) *
 		}
 		r := &Val{K: KInt, Ty: ty, T: "(bit.and " + x.T + " " + y.T + ")"}
 		if xlo != nil && xlo.Sign() >= 0 && ylo != nil && ylo.Sign() >= 0 {
-			f.sc.assert(and(cmp(">=", r.T, "0"), cmp("<=", r.T, x.T), cmp("<=", r.T, y.T)))
+			f.fact(st, and(cmp(">=", r.T, "0"), cmp("<=", r.T, x.T), cmp("<=", r.T, y.T)))
 			r.Lo, r.Hi = big.NewInt(0), bigMin(xhi, yhi)
 		}
 		return r
@@ -241,11 +241,11 @@ func (f *FuncVC) intBinop(st *State, op token.Token, x, y *Val, ty types.Type) *
 		}
 		r := &Val{K: KInt, Ty: ty, T: "(bit.or " + x.T + " " + y.T + ")"}
 		if xlo != nil && xlo.Sign() >= 0 && ylo != nil && ylo.Sign() >= 0 {
-			f.sc.assert(and(cmp(">=", r.T, x.T), cmp(">=", r.T, y.T), cmp("<=", r.T, arith("+", x.T, y.T))))
+			f.fact(st, and(cmp(">=", r.T, x.T), cmp(">=", r.T, y.T), cmp("<=", r.T, arith("+", x.T, y.T))))
 			r.Lo = big.NewInt(0)
 		}
 		if tlo, thi, ok := intRangeOf(ty); ok {
-			f.sc.assert(and(cmp("<=", numBig(tlo), r.T), cmp("<=", r.T, numBig(thi))))
+			f.fact(st, and(cmp("<=", numBig(tlo), r.T), cmp("<=", r.T, numBig(thi))))
 		}
 		return r
 	case token.XOR:
@@ -254,7 +254,7 @@ func (f *FuncVC) intBinop(st *State, op token.Token, x, y *Val, ty types.Type) *
 		}
 		r := &Val{K: KInt, Ty: ty, T: "(bit.xor " + x.T + " " + y.T + ")"}
 		if tlo, thi, ok := intRangeOf(ty); ok {
-			f.sc.assert(and(cmp("<=", numBig(tlo), r.T), cmp("<=", r.T, numBig(thi))))
+			f.fact(st, and(cmp("<=", numBig(tlo), r.T), cmp("<=", r.T, numBig(thi))))
 		}
 		return r
 	case token.AND_NOT:
